@@ -1335,13 +1335,13 @@ class ThreadsafeForwardingResult(TestResult):
         try:
             self.result.time(self._test_start)
             self.result.startTest(test)
-            self.result.time(now)
-            if self._any_tags(self._global_tags):
-                self.result.tags(*self._global_tags)
-            if self._any_tags(self._test_tags):
-                self.result.tags(*self._test_tags)
-            self._test_tags = set(), set()
             try:
+                self.result.time(now)
+                if self._any_tags(self._global_tags):
+                    self.result.tags(*self._global_tags)
+                if self._any_tags(self._test_tags):
+                    self.result.tags(*self._test_tags)
+                self._test_tags = set(), set()
                 method(test, *args, **kwargs)
             finally:
                 self.result.stopTest(test)
